@@ -141,3 +141,56 @@ Definition pend_ok (i : pend_in) (o : pend_out) : bool :=
            end
   end.
 Definition pend_judge := judge pend_model pend_oeqb pend_ok (fun _ => 0%N).
+
+(* ---------- part history: rounds of a four-oracle execute DON over a scripted world ----------
+   input: the round's state (1 GetCommitReports, 2 GetMessages, 3 Filter) and the world as it was at the first
+   observation of the round's cycle: per chain the commit reports on the destination and the executed set (runs).
+   output: the outcome's pending commit reports (chain, report), by chain and start, and the (chain, sequence number)
+   pairs of the messages in the outcome's execution report.
+   Conditions of the simulated histories: all (honest) oracles read the same world within a cycle, every committed
+   message is readable, unordered messages (nonce 0), no token data, nothing costly, everything fits the limits. *)
+Definition snap_t := list (N * list rep * list range).
+Definition hist_in := (N * snap_t)%type.
+Definition hist_out := res (list (N * rep) * list (N * N)).
+
+Fixpoint seq_from (a : N) (n : nat) : list N :=
+  match n with O => [] | S n' => a :: seq_from (a + 1) n' end.
+Definition in_runsb (runs : list range) (s : N) : bool := existsb (fun r => N.leb (fst r) s && N.leb s (snd r)) runs.
+Definition unexecuted (r : rep) : list N :=
+  filter (fun s => negb (in_runsb (p_exec r) s)) (seq_from (p_lo r) (N.to_nat (p_hi r - p_lo r + 1))).
+
+(* the verified model of the pending computation, per chain *)
+Definition cycle_pending (snap : snap_t) : list (N * rep) :=
+  flat_map (fun cre => let '(c, reps, ex) := cre in
+                       match filter_executed reps ex with Ok l => map (pair c) l | _ => [] end) snap.
+Definition hist_model (i : hist_in) : hist_out :=
+  let '(st, snap) := i in
+  let pend := cycle_pending snap in
+  if N.eqb st 3 then Ok ([], flat_map (fun cr => map (pair (fst cr)) (unexecuted (snd cr))) pend)
+  else Ok (pend, []).
+Definition hist_oeqb : hist_out -> hist_out -> bool :=
+  res_eqb (pair_eqb (list_eqb (pair_eqb N.eqb rep_eqb)) (list_eqb (pair_eqb N.eqb N.eqb))).
+
+(* monitors on the implementation's outcome, by interval arithmetic on the snapshot *)
+Definition snap_executed (snap : snap_t) (c : N) : list range :=
+  flat_map (fun cre => if N.eqb (fst (fst cre)) c then snd cre else []) snap.
+Definition snap_reports (snap : snap_t) (c : N) : list rep :=
+  flat_map (fun cre => if N.eqb (fst (fst cre)) c then snd (fst cre) else []) snap.
+Definition hist_ok (i : hist_in) (o : hist_out) : bool :=
+  let '(st, snap) := i in
+  match o with
+  | Ok (pend, msgs) =>
+      (* a message the destination reported as executed at the start of the cycle is in no report *)
+      forallb (fun cs => negb (in_runsb (snap_executed snap (fst cs)) (snd cs)) &&
+                         existsb (fun r => N.leb (p_lo r) (snd cs) && N.leb (snd cs) (p_hi r)) (snap_reports snap (fst cs))) msgs &&
+      nodupb (pair_eqb N.eqb N.eqb) msgs &&
+      (* pending exactly the reports with an unexecuted message, with the executed set inside their interval *)
+      (if N.eqb st 3 then
+         (* after the Filter round a report is still pending only if one of its messages is neither executed nor selected *)
+         forallb (fun cr => match unexecuted (snd cr) with [] => false | _ => true end) pend
+       else list_eqb (pair_eqb N.eqb rep_eqb) pend
+              (flat_map (fun cre => map (pair (fst (fst cre))) (pending_spec (snd (fst cre)) (snd cre))) snap) &&
+            match msgs with [] => true | _ => false end)
+  | _ => false
+  end.
+Definition hist_judge := judge hist_model hist_oeqb hist_ok (fun _ => 0%N).
